@@ -126,6 +126,15 @@ static void gs_sweeps(KeyOnce &k, const Csr<double> &A, const M &a, const GS &P,
     ++k.c.checks; if (d1.size() > 1 || d2.size() > 1) k.fail("gauss_seidel:repetition-digests-differ" + tag, "repetitions of the same parallel sweep gave different results", J(wit).n("distinct_pre", d1.size()).n("distinct_post", d2.size()));
 }
 
+// Gauss-Seidel on one stored matrix: schedule invariant and / or sweeps.  Called for the sorted storage and for a storage with
+// permuted entries inside the rows (duplicate-free unsorted rows are valid input of relaxation::gauss_seidel used directly).
+static void gs_all(KeyOnce &k, const Csr<double> &A, Rng &r, int reps, bool sched, bool sweeps, const std::string &tag, const J &wit, Tally &ty) {
+    M a = to_amg(A); GS::params pp; pp.serial = false; GS P(a, pp, B::params());
+    if (sched) gs_schedule(k, A, a, P, tag, wit, ty);
+    if (sweeps && !ACC::is_serial(P)) { GS::params ps; ps.serial = true; GS S(a, ps, B::params()); gs_sweeps(k, A, a, P, S, r, reps, tag, wit, ty); }
+}
+static Csr<double> unsorted_storage(const Csr<double> &A, Rng &r, bool reverse) { return vf::shuffle_rows(A, r, reverse); }
+
 //---------------------------------------------------------------------------
 // ILU: schedules of the triangular solves against the factors held by the serial form.
 //---------------------------------------------------------------------------
@@ -232,10 +241,9 @@ static void sub_sched_exhaustive(const std::vector<int> &threads) {
                     if (!want_struct(sym)) continue;
                     M a = to_amg(A); const std::string tag = sym ? ":struct-sym" : ":struct-nonsym";
                     J wit = J().n("n", n).n("mask", mask).n("threads", T).bl("struct_sym", sym);
-                    GS::params pp; pp.serial = false; GS P(a, pp, B::params());
-                    gs_schedule(k, A, a, P, tag, wit, ty);
                     bool sweeps = (n <= 4) || (q % 16 == 0);
-                    if (sweeps) { GS::params ps; ps.serial = true; GS S(a, ps, B::params()); gs_sweeps(k, A, a, P, S, r, 1, tag, wit, ty); }
+                    gs_all(k, A, r, 1, true, sweeps, tag, wit, ty);
+                    if (n >= 2) gs_all(k, unsorted_storage(A, r, mask % 3 != 0), r, 1, true, sweeps, tag + ":unsorted-rows", J(wit).bl("unsorted_rows", true), ty);     // reversed (2/3) or shuffled (1/3) entries inside the rows
                     if (n <= 4 || q % 4 == 0) all_ilu(k, A, a, r, 1, sweeps, false, tag, wit, ty);
                     ++pats;
                 }
@@ -277,7 +285,8 @@ static void sub_sched_random(const std::vector<int> &threads) {
         int T = threads[idx % threads.size()]; omp_set_num_threads(T);
         Case c("sched_random", idx, in.A.desc(in.family).bl("struct_sym", in.sym).n("threads", T)); KeyOnce k(c); Tally ty;
         M a = to_amg(in.A); const std::string tag = in.sym ? ":struct-sym" : ":struct-nonsym"; J wit = J().bl("struct_sym", in.sym).n("threads", T);
-        GS::params pp; pp.serial = false; GS P(a, pp, B::params()); gs_schedule(k, in.A, a, P, tag, wit, ty);
+        gs_all(k, in.A, r, 1, true, false, tag, wit, ty);
+        gs_all(k, unsorted_storage(in.A, r, idx % 2 == 0), r, 1, true, false, tag + ":unsorted-rows", J(wit).bl("unsorted_rows", true), ty);
         all_ilu(k, in.A, a, r, 1, false, true, tag, wit, ty);
         c.nontrivial(); vf::obs_sum("schedules_checked", (double)ty.sched); vf::obs_sum("rows_in_checked_schedules", (double)ty.rows); vf::obs_add("threads_seen", std::to_string(T));
         vf::sample("sched_random", in.A.desc(in.family).bl("struct_sym", in.sym).n("threads", T).n("schedules", ty.sched));
@@ -294,8 +303,8 @@ static void sub_sweep_random(const std::vector<int> &threads) {
         int T = threads[idx % threads.size()]; omp_set_num_threads(T);
         Case c("sweep_random", idx, in.A.desc(in.family).bl("struct_sym", in.sym).n("threads", T).n("reps", reps)); KeyOnce k(c); Tally ty;
         M a = to_amg(in.A); const std::string tag = in.sym ? ":struct-sym" : ":struct-nonsym"; J wit = J().bl("struct_sym", in.sym).n("threads", T);
-        GS::params pp; pp.serial = false; GS P(a, pp, B::params()); GS::params ps; ps.serial = true; GS S(a, ps, B::params());
-        if (!ACC::is_serial(P)) gs_sweeps(k, in.A, a, P, S, r, reps, tag, wit, ty);
+        gs_all(k, in.A, r, reps, false, true, tag, wit, ty);
+        gs_all(k, unsorted_storage(in.A, r, idx % 2 == 0), r, std::max(1, reps / 2), false, true, tag + ":unsorted-rows", J(wit).bl("unsorted_rows", true), ty);
         all_ilu(k, in.A, a, r, reps, true, true, tag, wit, ty);
         c.nontrivial(); vf::obs_sum("parallel_sweeps_run", (double)ty.sweeps); vf::obs_add("threads_seen", std::to_string(T));
         vf::sample("sweep_random", in.A.desc(in.family).bl("struct_sym", in.sym).n("threads", T).n("sweeps", ty.sweeps));
@@ -323,14 +332,15 @@ static void sub_epoch_trace(const std::vector<int> &threads) {
         M a = to_amg(in.A); size_t n = in.A.n; const std::string tag = in.sym ? ":struct-sym" : ":struct-nonsym"; J wit = J().bl("struct_sym", in.sym).n("threads", T);
         amgcl::verif::barrier_hook = vf::trace_barrier_hook; amgcl::verif::point_hook = vf::delay_point; vf::delay_level() = 2; vf::delay_salt() = (unsigned)(r.next() | 1);
         NV f(n), t(n); for (size_t i = 0; i < n; ++i) f[i] = r.uni(-1, 1);
-        GS::params pp; pp.serial = false; GS P(a, pp, B::params());
+        Csr<double> Ag = idx % 2 ? unsorted_storage(in.A, r, true) : in.A; M ag = to_amg(Ag); const std::string gtag = tag + (idx % 2 ? ":unsorted-rows" : "");
+        GS::params pp; pp.serial = false; GS P(ag, pp, B::params());
         if (!ACC::is_serial(P)) {
             for (int dir = 0; dir < 2; ++dir) {
                 vf::traced_vector<double> x; x.v.resize(n); for (auto &v : x.v) v = r.uni(-1, 1);
                 vf::trace().reset(T);
-                if (dir == 0) P.apply_pre(a, f, x, t); else P.apply_post(a, f, x, t);
+                if (dir == 0) P.apply_pre(ag, f, x, t); else P.apply_post(ag, f, x, t);
                 long nlev = dir == 0 ? (long)ACC::tasks(*ACC::forward(P))[0].size() : (long)ACC::tasks(*ACC::backward(P))[0].size();
-                report_trace(k, dir ? "gauss_seidel.backward" : "gauss_seidel.forward", tag, wit, nlev + 1);
+                report_trace(k, dir ? "gauss_seidel.backward" : "gauss_seidel.forward", gtag, wit, nlev + 1);
             }
         }
         { relaxation::ilu0<B>::params ip; ip.solve.serial = false; relaxation::ilu0<B> I(a, ip, B::params()); auto il = ACC::ilu(I);
